@@ -333,7 +333,16 @@ where
 
         self.read_block()?;
 
-        self.buffer.block.data_mut().set_position(usize::from(upos));
+        let upos = usize::from(upos);
+
+        if upos > self.buffer.block.data().len() {
+            return Err(io::Error::new(
+                io::ErrorKind::InvalidInput,
+                "invalid uncompressed position",
+            ));
+        }
+
+        self.buffer.block.data_mut().set_position(upos);
 
         Ok(pos)
     }
